@@ -11,6 +11,11 @@ CLAIMED = {
          "The TLA+ module HclExpr is the independent statement of the expression semantics (literals, operators with precedence, conditional with unification, tuple/object constructors, index/attr/legacy index, both splats, for expressions, calls with expansion, templates with interpolation/unwrapping/strip markers/if/for). TLC checks on the spec that Eval is total, yields no unknown from a known scope and depends only on FreeVars; every enumerated AST (depth 2, typed sibling pools) is evaluated by the real parser+evaluator and compared.",
          "Bounded universe (half-integer numbers, representative strings, 17-variable scope); results outside it are 'oom' and only executed for panic-freedom; value-layer behaviour follows go-cty where spec.md is silent; heredoc templates not yet generated.",
          "DESIGN.md §4.0, §4 C01"),
+ "C02": ("spec/HclStruct.tla (MC_C02)",
+         "TLC enumerates every file the HclStruct layout machine can write (tree + rendering with a bounded number of layout deviations); each is parsed by hclsyntax and compared with the written tree; duplicates must be rejected",
+         "Body trees (attributes, multi-line/one-line/empty blocks, nesting <= 2, 0..2 labels in every spelling of the escape table: bare, quoted, \\u/\\U escapes, escaped template introducers, multi-byte) x all renderings with <= 1 (quick) / <= 2 (thorough) deviations from canonical layout among indentation, token gaps, inline and line comments in every legal position, blank lines, CRLF, BOM, missing final newline. TLC checks WellFormed/Balanced on the spec; the replayer checks acceptance iff no duplicate attribute and exact structure.",
+         "Identifier alphabet {a,b,t}; label alphabet by representative spellings; layout deviations bounded by MaxL.",
+         "DESIGN.md §4 C02"),
  "C04": ("spec/HclBody.tla (MC_C04)",
          "TLC enumerates (body, disjoint schema split) pairs with the model's per-step prediction and checks the C04 laws (TwoStep, ExactlyOnce, Accounted) on the spec; each pair is replayed on native, JSON, merged and dynblock-expanded bodies and compared by the laws and against the model",
          "All bodies of <= 3 (quick) / 4 (thorough) items x all disjoint splits of all well-formed schemas into 2 (quick) / 2..3 (thorough) parts; on each of the four hcl.Body implementations built from the same abstract items: no item returned twice, chain == one-step union (attributes, blocks, error kinds), every item returned or reported, remaining body holds exactly the unmatched items, and step-by-step agreement with HclBody.tla.",
@@ -82,6 +87,7 @@ def main():
         },
         "engines": [
             {"name": "HclWriteTree", "path": "spec/HclWriteTree.tla", "serves_properties": ["C12"], "kind_free_text": "TLA+ edit-history machine of the hclwrite tree; TLC state dump streamed to a Go replayer"},
+            {"name": "HclStruct", "path": "spec/HclStruct.tla", "serves_properties": ["C02"], "kind_free_text": "TLA+ layout machine writing native-syntax files with their abstract tree; TLC dump replayed into hclsyntax.ParseConfig"},
             {"name": "HclBody", "path": "spec/HclBody.tla", "serves_properties": ["C04"], "kind_free_text": "TLA+ machine of schema-driven body processing (PartialContent/Content with hidden sets); TLC dump replayed on four hcl.Body implementations"},
             {"name": "E1 HclValues+HclExpr+MC_E1", "path": "spec/HclExpr.tla", "serves_properties": ["C01", "C05", "C06", "C07", "C19", "C20"], "kind_free_text": "TLA+ denotational semantics of the expression/template language with a production-per-action AST generator; TLC dump streamed to Go replayers (harness/e1, c01, c05, c06, c07, c19)"},
         ],
